@@ -146,8 +146,9 @@ Proof. exact c03_rush_rule_at_rung. Qed.
 Print Assumptions c03_rush_decision_rule.
 
 (* (8) rung level construction (successive_halving_rung_levels: explicit list with its validation,
-   grace_period * rf^k for an integer reduction factor, grace_period + k * rung_increment; a final
-   entry equal to max_t is stripped): whenever it does not raise, the levels are non-empty,
+   round-half-even of grace_period * rf^k for ANY rational reduction factor >= 2 (closed form: the
+   roundings do not compound), grace_period + k * rung_increment; a final entry equal to max_t is
+   stripped): whenever it does not raise, the levels are non-empty,
    positive, strictly increasing and all < max_t *)
 Theorem c03_rung_levels_well_formed :
   forall rung_levels grace_period reduction_factor rung_increment max_t l,
@@ -192,7 +193,9 @@ Example c03_example :
   let evs := [EvSuggest 0 0; EvSuggest 1 0; EvSuggest 2 0; EvSuggest 3 1; EvSuggest 4 0;
               EvReport 0 1 5; EvReport 1 1 7; EvReport 3 1 100] in
   let st := reached cfg [1; 3]%Z 2 evs in
-  sh_rung_levels None 1 (Some 3%Z) None 9 = Some [1; 3]%Z /\
+  sh_rung_levels None 1 (Some (3 # 1)) None 9 = Some [1; 3]%Z /\
+  sh_rung_levels None 1 (Some (22 # 10)) None 30 = Some [1; 2; 5; 11; 23]%Z /\
+  sh_rung_levels None 1 (Some (5 # 2)) None 40 = Some [1; 2; 6; 16; 39]%Z /\
   sh_rung_levels (Some [2; 5; 9]%Z) 1 None None 9 = Some [2; 5]%Z /\
   map rsig (own_rungs cfg st 1) = [(3%Z, 3 # 9)] /\
   wf_levels [1; 3]%Z (c_max_t cfg) /\ running st 2 /\ running st 3 /\
